@@ -38,6 +38,9 @@ META = {
         "identifier kernel: names = sequences of <= 3 symbols over a 19-symbol class-representative alphabet (a B 1 _ - . space é ² class None type value 9x Class IN def_ any From), every NameCase, default and two alternative safe prefixes",
         "pipeline: hostile name triples from pools of ~22 (JSON keys via DictMapper; NCName-legal element / attribute / type names of a tiny XSD via SchemaParser+SchemaMapper), then the REAL ClassContainer.process() and Filters, "
         "for structure styles x compound fields x unnest as partitions",
+        "pipeline_multi: a set of three schemas (two imported namespaces / files + an importing one); type-name triples from a pool of 12 (equal, case-colliding, reserved, punctuated), references inside a repeating choice or a sequence, "
+        "optional cross-reference between the imported schemas; mapped in ResourceTransformer order",
+        "module scoping oracle (harness/multins.scope_problem): per module every import (alias or name) and class is bound once and every type reference - attribute types, compound choice types, extensions - rendered as class_name(alias or name) is bound to the class it means",
         "selector driven: finite pools enumerated through the solver's forking; each path runs concretely",
     ],
     "outside": ["generation terminating with files written, modules importing, classes instantiating (jinja2 absent: rendering cannot run) - i.e. most of the property's wording",
@@ -196,7 +199,10 @@ def _check_container(container, cfg):
         resolver.process(items)
         resolver.sorted_classes()
         resolver.sorted_imports()
-    return None
+    # module scoping of the emitted names: imports (with aliases) and classes bound once, every reference bound to the class it means
+    from harness import multins
+
+    return multins.scope_problem(container, f, DependenciesResolver, skip=lambda a, b: _KNOWN_PREFIX and (_needs_prefix(a) or _needs_prefix(b)))
 
 
 def pipeline_json(k0: int, k1: int, k2: int) -> bool:
@@ -265,6 +271,35 @@ def _pipeline_xsd(na, nb, nc, part):
         return None
 
 
+MNAMES = ["Foo", "foo", "FOO", "Bar", "class", "a-b", "a_b", "Kind", "order", "Item.1", "item_1", "é"]
+
+
+def pipeline_multi(k0: int, k1: int, k2: int, choice: bool, cross: bool) -> bool:
+    """
+    pre: k0 == PART.get("k0", 0)
+    pre: 0 <= k1 < len(MNAMES)
+    pre: 0 <= k2 < len(MNAMES)
+    post: _
+    """
+    a, b, c = concretize(k0, len(MNAMES)), concretize(k1, len(MNAMES)), concretize(k2, len(MNAMES))
+    ch, cr = bool(concretize(int(choice), 2)), bool(concretize(int(cross), 2))
+    with untraced():
+        return result(_pipeline_multi(MNAMES[a], MNAMES[b], MNAMES[c], ch, cr, PART) is None)
+
+
+def _pipeline_multi(na, nb, nc, choice, cross, part):
+    """Three schemas in three namespaces / files: the two imported ones may define same-named or case-colliding types that
+    the main schema references (inside a repeating choice or a sequence) next to its own type of a possibly colliding name."""
+    from harness import multins
+
+    cfg = _config(part)
+    try:
+        container = multins.container_for(multins.schema_set(na, nb, nc, choice=choice, local=True, cross=cross), cfg)
+        return _check_container(container, cfg)
+    except CodegenError:
+        return None
+
+
 def explain_names(c0, c1, c2, n):
     return _names_ok("".join([ALPHA[c0], ALPHA[c1], ALPHA[c2]][:n]))
 
@@ -274,6 +309,7 @@ EXPLAIN = {
     "names": explain_names,
     "pipeline_json": lambda k0, k1, k2: {"keys": [JKEYS[k0], JKEYS[k1], JKEYS[k2]], "problem": _pipeline_json(JKEYS[k0], JKEYS[k1], JKEYS[k2], PART)},
     "pipeline_xsd": lambda k0, k1, k2: {"names": [XNAMES[k0], XNAMES[k1], XNAMES[k2]], "problem": _pipeline_xsd(XNAMES[k0], XNAMES[k1], XNAMES[k2], PART)},
+    "pipeline_multi": lambda k0, k1, k2, choice, cross: {"names": [MNAMES[k0], MNAMES[k1], MNAMES[k2]], "problem": _pipeline_multi(MNAMES[k0], MNAMES[k1], MNAMES[k2], choice, cross, PART)},
 }
 
 
@@ -293,6 +329,11 @@ def plan(tier):
             if quick and ci != (k0 * 3 + 1) % len(combos):
                 continue
             jobs.append(Job("pipeline_xsd", {"k0": k0, "style": s, "compound": c, "unnest": u}, 600, 60, note="selector driven"))
+    for k0 in range(len(MNAMES)):
+        for ci, (s, c, u) in enumerate(combos):
+            if quick and ci not in ((k0 * 3 + 2) % len(combos), (k0 * 3 + 9) % len(combos)):
+                continue
+            jobs.append(Job("pipeline_multi", {"k0": k0, "style": s, "compound": c, "unnest": u}, 900, 60, note="selector driven, three namespaces / files"))
     return jobs
 
 
